@@ -210,6 +210,58 @@ def check_timeframes(repo, rep):
     rep.floor(rid, 150)
 
 
+def check_acceptance(repo, rep):
+    """the acceptance clause: 'an order for it at that price is accepted by a fresh account holding the capital'.  The sizing
+    rules give cost <= capital, equality included (fee 0 and an exact division), so both exchange models must accept every
+    order of the closed cell cost <= capital of a fresh account."""
+    from props import c04, c03
+    rid = "C17-R5"
+    rep.rule(rid, "a fresh account accepts every order whose cost - qty*price on spot, |qty*price|/leverage on futures - is at "
+                  "most its balance, EQUALITY INCLUDED (what size_to_qty / risk_to_qty return with fee 0 and an exact quotient): "
+                  "on_order_submission of both exchange models, interpreted on boundary and interior witnesses of that cell, "
+                  "returns normally on every path")
+    n = 0
+    # spot: buy orders of the three kinds against a fresh account (no base, nothing resting)
+    pts = []
+    for q, pr in itertools.product([F(1), F(2), F(7, 2)], [F(2), F(5), F(1, 10)]):
+        for extra in (F(0), F(1, 1000), q * pr):
+            pts.append({"B": F(0), "S": F(0), "L": F(0), "q": q, "p": pr, "Q": q * pr + extra, "f": F(0) if extra == 0 else F(1, 10)})
+    for typ in ("MARKET", "LIMIT", "STOP"):
+        for out in c04.run_ops(repo, ["submit"], "buy", typ, pts):
+            s = out.interp.samples[0]
+            n += 1
+            if out.kind == "raise":
+                rep.violation(rid, f"spot|buy|{typ}", f"SpotExchange.on_order_submission rejects a buy {typ} order that costs "
+                              f"{'exactly' if s['Q'] == s['q'] * s['p'] else 'less than'} the balance of a fresh account with {out.value} "
+                              f"(witness {c04.fmt(s)}; path {out.conds}) - a quantity sized to the whole capital is refused")
+            rep.instance(rid, f"spot|buy|{typ}|{out.conds}", {"raised": out.kind == "raise", "witnesses": len(out.interp.samples)})
+    # futures: both sides, not reduce-only, fresh account (no position, nothing resting)
+    sides = {"buy": W.enum_value(repo, "sides", "BUY"), "sell": W.enum_value(repo, "sides", "SELL")}
+    limit = W.enum_value(repo, "order_types", "LIMIT")
+    fpts = []
+    for q, pr, lev in itertools.product([F(1), F(3)], [F(10), F(1, 4)], [F(1), F(2), F(10)]):
+        for extra in (F(0), F(1, 1000), q * pr):
+            fpts.append({"q": q, "p": pr, "lev": lev, "Wt": q * pr / lev + extra, "f": F(0), "a0": F(0), "P": F(0), "E": F(9), "cp": F(11),
+                         "q1": F(1), "p1": F(8), "q2": F(1), "p2": F(15)})
+    nonneg = {"q", "p", "Wt", "lev", "f"}
+    for side in ("buy", "sell"):
+        def mk(dec):
+            it = Interp(repo, stubs=W.base_stubs(), samples=[dict(x) for x in fpts], nonneg=set(nonneg), decisions=dec)
+            ex = c03.build_margin_world(repo, it, 0, False)
+            qty = A("q") if side == "buy" else -A("q")
+            o = W.make_order(repo, "O", sides[side], limit, qty, A("p"), reduce_only=False, symbol=c03.SYM)
+            return it, lambda it: it.call(it.getattr(ex, "on_order_submission"), [o], {})
+        for out in explore(mk, 32):
+            s = out.interp.samples[0]
+            n += 1
+            if out.kind == "raise":
+                rep.violation(rid, f"futures|{side}", f"FuturesExchange.on_order_submission rejects a {side} order whose margin "
+                              f"requirement is {'exactly' if s['Wt'] == s['q'] * s['p'] / s['lev'] else 'less than'} the balance of a fresh "
+                              f"account with {out.value} (witness q={s['q']}, p={s['p']}, leverage={s['lev']}, wallet={s['Wt']}; path {out.conds})")
+            rep.instance(rid, f"futures|{side}|{out.conds}", {"raised": out.kind == "raise", "witnesses": len(out.interp.samples)})
+    rep.floor(rid, 5)
+
+
 def run(repo: Repo, rep, tier: str):
     rep.exhaustive = True
     rep.assume("real arithmetic: the cost/risk bounds are discharged as polynomial sign facts on the normal forms; IEEE rounding of the final float division is not modelled")
@@ -218,6 +270,7 @@ def run(repo: Repo, rep, tier: str):
     rep.guarded(check_decimal, repo, rep)
     rep.guarded(check_timeframes, repo, rep)
     rep.guarded(check_tables, repo, rep)
+    rep.guarded(check_acceptance, repo, rep)
     rep.undecided_item("the bound 'never costs more than the capital' under IEEE-754 rounding of size/price and of the final division (decided in real arithmetic only)")
 
 
@@ -229,6 +282,6 @@ CLAIM = {
             "never-over-risk inequalities then follow in real arithmetic from floor(xT)/T <= x and the discharged polynomial sign "
             "(1-3f)(1+f)-1 <= 0; no round/ceil primitive occurs on a quantity path and the only upward step in round_qty_for_live_mode "
             "is the zero->minimum-unit exception. Decimal helpers are exact. max_timeframe is interpreted on every singleton and pair "
-            "of the 17 timeframes and the full set; anchor_timeframe maps to strictly larger multiples. Not decided: IEEE float rounding.",
+            "of the 17 timeframes and the full set; anchor_timeframe maps to strictly larger multiples. Acceptance clause: on_order_submission of the spot and the futures exchange model accepts, on a fresh account, every order of the closed cell cost <= balance (boundary witnesses included). Not decided: IEEE float rounding.",
     "note": "Trusted: interpreter semantics; floor / 10**p kept as opaque atoms; real arithmetic.",
 }
